@@ -4,6 +4,7 @@
   All statements are over the DFA table *generated from the source*.
 -/
 import Lomond.Proofs.Utf8
+import Lomond.Proofs.TextMsg
 
 namespace Lomond.C05
 open Lomond Lomond.Utf8
@@ -80,5 +81,54 @@ example : run 0 [0x61, 0xED, 0xA0] = 1 := by decide       -- surrogate: rejected
 example : run 0 [0xC0] = 1 ∧ run 0 [0xF4, 0x90] = 1 ∧ run 0 [0xE0, 0x9F] = 1 := by decide
 example : decode [0xE2, 0x82, 0xAC] = some [0x20AC] := by decide
 example : validate 0 [0xE2] = some 3 ∧ validate 3 [0x82, 0xAC] = some 0 := by decide
+
+
+/-! ### message level (core model of frame_parser.py / message.py) -/
+open Lomond.Core
+
+/-- **Verdict.**  A complete text payload (all fragments joined, inflated if compressed) becomes a
+    Text message iff it is well-formed UTF-8, and then the text is its exact decoding; otherwise
+    the result is the critical error (→ one ProtocolError event, no Text). -/
+theorem text_message_iff_wf (payload : Bytes) :
+    (∀ cps, msgOfPayload Gen.opText payload = .ok (.text cps) ↔ Utf8.decode payload = some cps) ∧
+    (msgOfPayload Gen.opText payload = .error (.critical "payload contains invalid utf-8") ↔
+      Utf8.wf payload = false) :=
+  msgOfPayload_text payload
+
+/-- **Fail-fast.**  With `pre` the text bytes of the current message already accepted, a bite of
+    a payload read with incremental validation is rejected at once iff `pre ++ chunk` admits no
+    well-formed continuation (the first offending byte has arrived); otherwise it passes. -/
+theorem failfast (v : Variant) (p : PState) (pre chunk : Bytes) (hu : p.utf8 = true)
+    (hpre : Utf8.validate 0 pre = some p.dfa) (hw : Bytes.WF (pre ++ chunk)) :
+    ((∀ ext, Utf8.wf (pre ++ chunk ++ ext) = false) →
+        biteBytes v p chunk = .error (.parse "invalid utf8")) ∧
+    ((∃ ext, Utf8.wf (pre ++ chunk ++ ext) = true) → ∃ d, vres p.utf8 p.dfa chunk = some d) :=
+  failfast_bite v p pre chunk hu hpre hw
+
+/-- An uncompressed text frame is read with incremental validation also when
+    permessage-deflate was negotiated (the pinned commit did not: finding D9). -/
+theorem uncompressed_text_is_validated (v : Variant) (hv : v.perMsgValidate = true) (p : PState)
+    (b0 len : Nat) (key : Option Bytes) (r : PState × Option Out)
+    (hop : b0 % 16 = Gen.opText) (hrsv : b0 / 64 % 2 = 0) (hlen : len ≠ 0)
+    (h : gotMask v p b0 len key = .ok r) :
+    r.1.utf8 = true ∧ r.1.isText = true ∧ r.1.isCompressed = false :=
+  text_frame_is_validated v hv p b0 len key r hop hrsv hlen h
+
+/-- D9 in the pinned commit (`perMsgValidate = false`): with the extension negotiated an
+    RSV1 = 0 text frame is read without validation. -/
+theorem present_variant_no_failfast_when_negotiated :
+    ∃ r, gotMask { perMsgValidate := false } { cont := .hdr2, remPred := 1, compression := true } 0x81 3 none = .ok r ∧
+      r.1.utf8 = false := by
+  refine ⟨_, rfl, ?_⟩; decide
+
+/-- D2 in the pinned commit (`keepIsText = false`): a Ping between two fragments of a text
+    message clears the text flag, so the next continuation frame is read without validation;
+    with the repair the flag survives. -/
+theorem present_variant_ping_clears_text_state :
+    (∃ r, frameDone { keepIsText := false } { cont := .hdr2, isText := true } { opcode := 9 } = .ok r ∧ r.1.isText = false) ∧
+    (∃ r, frameDone { keepIsText := true } { cont := .hdr2, isText := true } { opcode := 9 } = .ok r ∧ r.1.isText = true) := by
+  refine ⟨⟨_, rfl, ?_⟩, ⟨_, rfl, ?_⟩⟩ <;> decide
+
+example : msgOfPayload Gen.opText [0xE2, 0x82, 0xAC] = .ok (.text [0x20AC]) := by rfl
 
 end Lomond.C05
